@@ -149,6 +149,9 @@ func runGlobals(r *core.Run) {
 		if fn.Name() == "init" && fn.Synthetic != "" {
 			continue // package initialiser
 		}
+		if strings.HasPrefix(fn.Name(), "init#") && fn.Parent() == nil && fn.Signature.Recv() == nil {
+			continue // a declared func init(): runs once, before any caller exists, and cannot be called
+		}
 		for _, b := range fn.Blocks {
 			for _, in := range b.Instrs {
 				switch x := in.(type) {
